@@ -180,7 +180,13 @@ func vfGenVerifyCase(r *vfRand, id int) *vfVCase {
 func vfVerifyCorpus() []*vfVCase {
 	valid := vfTokSpec{Sub: "u", Email: "u@example.com", ExpIn: 3600, IatIn: -5, Jti: "jti-corpus-v"}
 	long := vfTokSpec{Sub: "u", Email: "u@example.com", ExpIn: 600000, IatIn: -500}
+	// 3 s before the END of the expiry tolerance: accepted now, and whatever is cached, rejected once the tolerance is over
+	edge := vfTokSpec{Sub: "u", Email: "u@example.com", ExpIn: -117, IatIn: -900}
+	edgeJ := vfTokSpec{Sub: "u", Email: "u@example.com", ExpIn: -117, IatIn: -900, Jti: "jti-corpus-edge"}
 	return []*vfVCase{
+		{Kind: "corpus", Toks: []vfVTok{{Kind: "minted", Spec: &edge}, {Kind: "minted", Spec: &edgeJ}},
+			Steps: []vfVStep{{Op: "verify", Tok: 0}, {Op: "verify", Tok: 1}, {Op: "verify", Tok: 0}, {Op: "sleep", Ms: 4300},
+				{Op: "verify", Tok: 0}, {Op: "verify", Tok: 1}, {Op: "verify", Tok: 0}}},
 		{Kind: "corpus", Toks: []vfVTok{{Kind: "minted", Spec: &valid}, {Kind: "same_sig_other_payload", Base: 0}, {Kind: "alg_none_same_sig", Base: 0}},
 			Steps: []vfVStep{{Op: "verify", Tok: 1}, {Op: "verify", Tok: 0}, {Op: "verify", Tok: 1}, {Op: "verify", Tok: 2}, {Op: "verify", Tok: 0},
 				{Op: "revoke", Tok: 0}, {Op: "verify", Tok: 0}, {Op: "verify", Tok: 0}}},
